@@ -899,14 +899,15 @@ class OneToOne(dict):
     def update(self, dict_or_iterable, **kw):
         keys_vals = []
         if isinstance(dict_or_iterable, dict):
+            keys_vals = list(dict_or_iterable.items())
             for val in dict_or_iterable.values():
                 hash(val)
-                keys_vals = list(dict_or_iterable.items())
         else:
-            for key, val in dict_or_iterable:
+            # materialize once: the argument may be a one-shot iterator
+            keys_vals = list(dict_or_iterable)
+            for key, val in keys_vals:
                 hash(key)
                 hash(val)
-                keys_vals = list(dict_or_iterable)
         for val in kw.values():
             hash(val)
         keys_vals.extend(kw.items())
